@@ -89,6 +89,7 @@ def run(F, rep, tier):
     r3 = rep.rule("R08.3", "named wrapper reaches a subset of the core functions the positional wrapper reaches; empty only for audited variadics")
     r4 = rep.rule("R08.4", "an omitted optional trailing argument is passed as null by both wrappers at the same argument index")
     r5 = rep.rule("R08.5", "named parameter -> core argument index agrees with positional index under the specification's parameter order")
+    units_rule(F, rep)
     adt = F.adts.get(BIF)
     if adt is None:
         rep.missing_anchor(r1, BIF)
@@ -229,3 +230,117 @@ def run(F, rep, tier):
                                       % (fname, s, i, c, pj, sorted(allowed)), "%s:%s" % (F.hir[f]["file"], line))
     rep.floor(r5, "named core calls analysed", n_named_calls, 60)
     rep.analysed.update(dict(bif_variants=len(variants), named_core_calls=n_named_calls, name_statics=len(statics)))
+
+
+# ======================================================================================================
+# R08.6: units of measure in the string built-ins: byte offsets vs character counts
+BYTE_SOURCES = r"(core::str::<impl str>::(len|find|rfind)|alloc::string::String::len|core::str::<impl str>::(match_indices|char_indices|len_utf8)|char::methods::<impl char>::len_utf8)$"
+CHAR_SINKS = r"core::iter::traits::iterator::Iterator::(skip|take|nth|step_by)$"
+
+
+def units_rule(F, rep):
+    """FEEL positions and lengths count Unicode characters; Rust's str::len / find / slicing count UTF-8 bytes. A units-of-measure analysis over the MIR
+    definition chains of the string built-ins: a value is BYTES (from str::len, String::len, str::find, ...), CHARS (from chars().count()) or neutral;
+    adding or subtracting BYTES and CHARS, slicing a string at a CHARS position, or stepping a chars() iterator by a BYTES amount mixes the units -
+    the result is right for ASCII only."""
+    import re
+    import g1_panic
+    rid = rep.rule("R08.6", "string built-ins never mix UTF-8 byte offsets with character counts (add/subtract, slice positions, chars().skip/take amounts)")
+    nsrc = 0
+    for name in sorted(F.bodies):
+        if not name.startswith("dmntk_feel_evaluator::bifs::core::") or F.bodies[name]["kind"] == "closure" and False:
+            continue
+        b = F.bodies[name]
+        A = g1_panic.Analyzer(F, name)
+        B = A.B
+        memo = {}
+
+        def from_chars(op, depth=0):
+            """does the iterator operand derive from str::chars()?"""
+            if op[0] not in ("C", "M") or depth > 8:
+                return False
+            defs = B.defs.get(op[1][0], [])
+            if len(defs) != 1:
+                return False
+            bi, si, kind, st = defs[0]
+            if kind == "call":
+                p = st["f"].get("p") or ""
+                if p.endswith("core::str::<impl str>::chars"):
+                    return True
+                return bool(st["args"]) and from_chars(st["args"][0], depth + 1)
+            rv = st[2]
+            if rv[0] == "Use":
+                return from_chars(rv[1], depth + 1)
+            if rv[0] in ("Ref",):
+                return from_chars(["C", rv[2]], depth + 1)
+            return False
+
+        def unit(op, depth=0):
+            """'B', 'C', 'X' (mixed) or None"""
+            if op[0] not in ("C", "M") or depth > 10:
+                return None
+            l = op[1][0]
+            if (l, len(op[1])) in memo:
+                return memo[(l, len(op[1]))]
+            defs = B.defs.get(l, [])
+            u = None
+            if len(defs) == 1:
+                bi, si, kind, st = defs[0]
+                if kind == "call":
+                    p = st["f"].get("p") or ""
+                    if re.search(BYTE_SOURCES, p):
+                        u = "B"
+                    elif p.endswith("Iterator>::count") or p.endswith("Iterator::count"):
+                        u = "C" if st["args"] and from_chars(st["args"][0]) else None
+                    elif re.search(r"(checked_add|checked_sub|saturating_sub|saturating_add|wrapping_add|wrapping_sub|core::cmp::(min|max)|Ord::(min|max))$", p) and len(st["args"]) == 2:
+                        a, c = unit(st["args"][0], depth + 1), unit(st["args"][1], depth + 1)
+                        u = "X" if {a, c} >= {"B", "C"} or "X" in (a, c) else (a or c)
+                else:
+                    rv = st[2]
+                    if rv[0] == "Use":
+                        u = unit(rv[1], depth + 1)
+                    elif rv[0] == "Cast":
+                        u = unit(rv[2], depth + 1)
+                    elif rv[0] == "Bin" and rv[1].replace("WithOverflow", "") in ("Add", "Sub"):
+                        a, c = unit(rv[2], depth + 1), unit(rv[3], depth + 1)
+                        u = "X" if {a, c} >= {"B", "C"} or "X" in (a, c) else (a or c)
+                    elif rv[0] == "Agg":
+                        us = [unit(x, depth + 1) for x in rv[2]]
+                        u = "X" if "X" in us or {"B", "C"} <= set(us) else next((x for x in us if x), None)
+            memo[(l, len(op[1]))] = u
+            return u
+        k = 0
+        for bi, bl in enumerate(b["blocks"]):
+            if bl.get("cleanup"):
+                continue
+            for st in bl["s"]:
+                if st[0] == "A" and st[2][0] == "Bin" and st[2][1].replace("WithOverflow", "") in ("Add", "Sub"):
+                    a, c = unit(st[2][2]), unit(st[2][3])
+                    if a or c:
+                        nsrc += 1
+                    if {a, c} >= {"B", "C"}:
+                        rep.violation(rid, "%s:mixed-arith#%d" % (name.split("::")[-1], k), "%s adds/subtracts a UTF-8 byte offset and a character count at line %s: correct for ASCII text only"
+                                      % (name.split("::")[-1], st[-1]), "%s:%s" % (b["file"], st[-1]))
+                        k += 1
+            t = bl["t"]
+            if t[0] != "call":
+                continue
+            p = t[1]["f"].get("p") or ""
+            args = t[1]["args"]
+            if re.search(r"(String|str) as core::ops::index::Index(Mut)?<.*>>::index(_mut)?$", p) and len(args) == 2:
+                u = unit(args[1])
+                nsrc += 1
+                if u in ("C", "X"):
+                    rep.violation(rid, "%s:slice#%d" % (name.split("::")[-1], k), "%s slices a string at a position that is (partly) a character count (line %s): byte and character positions differ "
+                                  "for non-ASCII text" % (name.split("::")[-1], t[1].get("line")), "%s:%s" % (b["file"], t[1].get("line")))
+                    k += 1
+            if re.search(CHAR_SINKS, p) and len(args) == 2 and from_chars(args[0]):
+                u = unit(args[1])
+                nsrc += 1
+                if u in ("B", "X"):
+                    rep.violation(rid, "%s:chars-step#%d" % (name.split("::")[-1], k), "%s steps a chars() iterator by an amount that is (partly) a byte offset (line %s)" % (name.split("::")[-1], t[1].get("line")),
+                                  "%s:%s" % (b["file"], t[1].get("line")))
+                    k += 1
+    if not any(v["rule"] == rid for v in rep.violations):
+        rep.ok(rid, "units", "%d unit-bearing operations in bifs::core, none mixes bytes and characters" % nsrc)
+    rep.floor(rid, "unit-bearing operations (slices, chars() steps, arithmetic on lengths/offsets)", nsrc, 8)
